@@ -56,6 +56,8 @@ type Scenario struct {
 	// ThoroughOnly scenarios are skipped by the quick tier. Quiet scenarios print no per-scenario line and are
 	// summarised by family (the part of the name before "::") in the evidence.
 	ThoroughOnly, Quiet bool
+	// NoRacePass: skipped by the free-running race pass (scenarios that wait for timers, which are real there).
+	NoRacePass bool
 }
 
 type failure struct {
@@ -577,6 +579,9 @@ func MainWith(id string, scenarios []*Scenario, assumptions []string, extra Extr
 		reps := 1
 		fmt.Sscanf(n, "%d", &reps)
 		for _, s := range scenarios {
+			if s.NoRacePass {
+				continue
+			}
 			for i := 0; i < reps; i++ {
 				done := make(chan struct{})
 				go func() { s.Body(); close(done) }()
